@@ -1,23 +1,69 @@
 #!/usr/bin/env python3
-"""prints the markdown table of /verif/seeded/*/meta.json (which checks caught which seeded change)"""
-import json, os, glob
+"""tools/seed_table.py [--full]
+Prints markdown tables from /verif/seeded/*/meta.json (seeded breaking changes: which checks caught them) and
+/verif/refactors/*/validation.json (harmless refactorings: which checks alarmed).  --full: with the authors' descriptions
+(written to seeded/README.md); default: the compact tables pasted into DESIGN.md section 10."""
+import json, os, glob, sys
 V = os.path.dirname(os.path.dirname(os.path.abspath(__file__)))
+full = '--full' in sys.argv
+
+
+def order(name):
+    wave = {'seed2': 2, 'seed3': 3, 'seed4': 4}.get(name.split('_')[0], 1)
+    return (name.split('_')[-1], wave)
+
+
 rows = []
-for d in sorted(glob.glob(os.path.join(V, 'seeded', '*'))):
+summary = {'n': 0, 'confirmed': 0, 'caught_by_target': 0, 'missed': []}
+for d in sorted(glob.glob(os.path.join(V, 'seeded', '*')), key=lambda p: order(os.path.basename(p))):
     try:
         m = json.load(open(os.path.join(d, 'meta.json')))
     except Exception:
         continue
     v = m.get('validation', {})
     name = os.path.basename(d)
+    target = m.get('property') or name.split('_')[-1]
     first = {}
     for i, c in (v.get('checks') or {}).items():
         if c.get('exit'):
             first[i] = c.get('replay_kind') or '?'
-    caught = ', '.join('%s%s' % (i, '' if k == 'failing-input' else '*') for i, k in sorted(first.items()))
-    rows.append('| `%s` | %s | %s | %s | %s | %s |' % (name, m.get('property', '?'), (m.get('summary') or '').replace('\n', ' ').replace('|', '/')[:230],
-                                                   (m.get('needs') or '').replace('\n', ' ').replace('|', '/')[:200],
-                                                   'yes' if v.get('suite_passes') and v.get('demo_confirmed') else 'NO', caught or '**none**'))
-print('| seed | breaks | change | needs | confirmed (suite passes, demo fails only with it) | caught by (quick tier; * = no-failing-input-found) |')
-print('|---|---|---|---|---|---|')
+    caught = ', '.join('%s%s' % ('**%s**' % i if i == target else i, '' if k == 'failing-input' else '\\*') for i, k in sorted(first.items()))
+    ok = bool(v.get('suite_passes') and v.get('demo_confirmed'))
+    summary['n'] += 1
+    summary['confirmed'] += ok
+    if target in first:
+        summary['caught_by_target'] += 1
+    else:
+        summary['missed'].append(name)
+    if full:
+        rows.append('| `%s` | %s | %s | %s | %s | %s |' % (name, target, (m.get('summary') or '').replace('\n', ' ').replace('|', '/')[:400],
+                                                       (m.get('needs') or '').replace('\n', ' ').replace('|', '/')[:300], 'yes' if ok else 'NO', caught or '**none**'))
+    else:
+        rows.append('| `%s` | %s | %s | %s |' % (name, (m.get('summary') or '').replace('\n', ' ').replace('|', '/')[:110] + '…', 'yes' if ok else 'NO', caught or '**none**'))
+if full:
+    print('| seed | breaks | change (as described by its author) | needs | confirmed (suite passes, demonstration fails only with it) | caught by (quick tier; bold = the property it was written against; \\* = no-failing-input-found) |')
+    print('|---|---|---|---|---|---|')
+else:
+    print('| seed | change | confirmed | caught by (bold = its property; \\* = no-failing-input-found) |')
+    print('|---|---|---|---|')
 print('\n'.join(rows))
+print()
+print('%d seeded changes, %d confirmed independently, %d caught by the check of the property they were written against%s.' % (
+    summary['n'], summary['confirmed'], summary['caught_by_target'], ('; NOT caught by it: ' + ', '.join(summary['missed'])) if summary['missed'] else ''))
+print()
+rr = []
+for d in sorted(glob.glob(os.path.join(V, 'refactors', '*')), key=lambda p: int(os.path.basename(p)[1:]) if os.path.basename(p)[1:].isdigit() else 0):
+    try:
+        v = json.load(open(os.path.join(d, 'validation.json')))
+    except Exception:
+        continue
+    try:
+        m = json.load(open(os.path.join(d, 'meta.json')))
+    except Exception:
+        m = {}
+    al = v.get('alarms') or {}
+    rr.append('| `%s` | %s | %s | %s |' % (os.path.basename(d), (m.get('area') or '')[:60], (m.get('summary') or '').replace('\n', ' ').replace('|', '/')[:(500 if full else 160)] + ('' if full else '…'),
+                                     ', '.join(sorted(al)) or 'none'))
+print('| refactoring | area | what was rewritten | checks that alarmed (all 19 run) |')
+print('|---|---|---|---|')
+print('\n'.join(rr))
